@@ -355,6 +355,9 @@ pub fn new_cb_log() -> u32 {
         })
     })
 }
+pub fn cb_log_count() -> usize {
+    WORLD.with(|w| w.borrow().cb_logs.len())
+}
 pub fn latest_cb_log() -> u32 {
     WORLD.with(|w| (w.borrow().cb_logs.len().max(1) - 1) as u32)
 }
